@@ -8,6 +8,7 @@ import DebInspector.Props.C02
 import DebInspector.Props.C03
 import DebInspector.Props.C04
 import DebInspector.Props.C05
+import DebInspector.Props.C06
 import DebInspector.Props.C07
 import DebInspector.Props.C08
 import DebInspector.Props.C10
@@ -31,6 +32,8 @@ def dispatch (op : String) (v : Val) : Option Val :=
   | "C03" => Props.C03.check.run v
   | "C04" => Props.C04.check.run v
   | "C05" => Props.C05.check.run v
+  | "C06" => Props.C06.check.run v
+  | "C06n" => Props.C06.checkNarrow.run v
   | "C07" => Props.C07.check.run v
   | "C08" => Props.C08.check.run v
   | "C08m" => Props.C08.checkM.run v
